@@ -3,6 +3,7 @@
      v2/pkg/engine/postprocess/order_sequence_by_dependencies.go   [order_sequence]
      v2/pkg/engine/postprocess/create_parallel_nodes.go            [create_parallel_nodes]
      v2/pkg/engine/postprocess/schedule_fetches.go                 [process_fetch_tree] and below
+     v2/pkg/engine/postprocess/create_multi_fetch.go               [create_multi_fetch]
      v2/pkg/engine/postprocess/postprocess.go organizeFetchTree,
        organizeFetchTreeInWaves, flattenFetchTree                  [organize]
      v2/pkg/engine/resolve/fetchtree.go                            [tree]
@@ -11,7 +12,14 @@
 From Coq Require Import List Arith Bool.
 Import ListNotations.
 
-Record fetch := { fid : nat; fdeps : list nat }.
+(* A node of the fetch tree as far as ordering is concerned.
+   fsrc: Some (datasource, envelope) when the fetch is a merge candidate of createMultiFetch
+         (createMultiFetch.isCandidate: an entity / batch entity SingleFetch with a well-formed
+         SubgraphOperation); the envelope stands for (method, url, header).
+   fmerged: MultiEntityFetch.MergedFetchIDs; [] for every fetch that the planner emitted. *)
+Record fetch := { fid : nat; fdeps : list nat; fsrc : option (nat * nat); fmerged : list nat }.
+Definition mkf (id : nat) (deps : list nat) : fetch :=
+  {| fid := id; fdeps := deps; fsrc := None; fmerged := [] |}.
 
 Inductive tree :=
 | Single (f : fetch)
@@ -456,16 +464,115 @@ Inductive outcome :=
 Definition of_option (o : option tree) : outcome :=
   match o with Some t => Done t | None => OutOfFuel end.
 
-(* organizeFetchTree.  [sched] = EnableScheduleFetches, [multi] = the MultiFetch stage is on.
-   createMultiFetch itself is taken as the identity (no mergeable entity fetches): what matters
-   here is that it makes the scheduler consume the flattened wave tree. *)
+(* ---- create_multi_fetch.go ----
+   The stage only ever receives the wave tree built by organizeFetchTreeInWaves: a Sequence whose
+   children are Single nodes or Parallel nodes of Single nodes.  Such a tree is a list of waves
+   (a wave = the fetches of one child, in order); createMultiFetch.walk visits the children of
+   the root in order and merges inside every Parallel child (its deeper recursion finds nothing). *)
+Definition wave_tree (w : list fetch) : tree :=
+  match w with
+  | [x] => Single x            (* "if len(child.ChildNodes) == 1" collapse; an untouched Single *)
+  | _ => Parallel (map Single w)
+  end.
+Definition waves_of (t : tree) : list (list fetch) :=
+  match t with
+  | Sequence ws => map tree_fetches ws
+  | _ => [tree_fetches t]
+  end.
+Definition tree_of_waves (s : list (list fetch)) : tree := Sequence (map wave_tree s).
+
+Definition src_eqb (a b : option (nat * nat)) : bool :=
+  match a, b with
+  | Some (d1, e1), Some (d2, e2) => (d1 =? d2) && (e1 =? e2)
+  | None, None => true
+  | _, _ => false
+  end.
+Definition is_cand (f : fetch) : bool := match fsrc f with Some _ => true | None => false end.
+Definition ds_of (f : fetch) : option nat := option_map fst (fsrc f).
+
+(* groupCandidatesByDataSource: candidates bucketed by datasource in first-seen order, buckets
+   of at least two; a group is given by the fetch ids of its members *)
+Fixpoint first_seen (l : list nat) (seen : list nat) : list nat :=
+  match l with
+  | [] => []
+  | x :: r => if memb x seen then first_seen r seen else x :: first_seen r (x :: seen)
+  end.
+Definition groups_of (w : list fetch) : list (list nat) :=
+  let cands := filter is_cand w in
+  let dss := first_seen (flat_map (fun f => match ds_of f with Some d => [d] | None => [] end) cands) [] in
+  filter (fun g => 2 <=? length g)
+         (map (fun d => ids (filter (fun f => match ds_of f with Some d' => d' =? d | None => false end) cands)) dss).
+
+(* the members of a group inside the (current) wave *)
+Definition sel (gids : list nat) (f : fetch) : bool := memb (fid f) gids && is_cand f.
+
+(* unionDependencies *)
+Definition union_deps (members : list fetch) (mids : list nat) : list nat :=
+  fold_left (fun deps m =>
+               fold_left (fun deps d => if memb d mids then deps
+                                        else if memb d deps then deps else deps ++ [d])
+                         (fdeps m) deps) members [].
+
+(* the multi node replaces the first member met in the parent, the other members are dropped *)
+Fixpoint merge_in_wave (gids : list nat) (mu : fetch) (w : list fetch) : list fetch :=
+  match w with
+  | [] => []
+  | x :: r => if sel gids x then mu :: filter (fun y => negb (sel gids y)) r
+              else x :: merge_in_wave gids mu r
+  end.
+
+(* replaceDependsOnFetchID for every merged id other than the survivor's: the survivor id is not
+   among the replaced ones, so the successive in-place replacements amount to one substitution *)
+Definition redirect (mids : list nat) (mu : nat) (f : fetch) : fetch :=
+  {| fid := fid f; fdeps := map (fun d => if memb d mids then mu else d) (fdeps f);
+     fsrc := fsrc f; fmerged := fmerged f |}.
+
+Fixpoint set_nth {A} (k : nat) (x : A) (l : list A) : list A :=
+  match l, k with
+  | [], _ => []
+  | _ :: r, 0 => x :: r
+  | y :: r, S k' => y :: set_nth k' x r
+  end.
+
+Definition cmp_fid (a b : fetch) : comparison := fid a ?= fid b.
+
+(* mergeGroup for the group [gids] of wave k; a failed precondition leaves the tree untouched.
+   Of the preconditions only the envelope comparison is modelled (see the harness: documents are
+   always mergeable). *)
+Definition merge_group (k : nat) (gids : list nat) (s : list (list fetch)) : list (list fetch) :=
+  let w := nth k s [] in
+  let members := go_sort cmp_fid (filter (sel gids) w) in
+  match members with
+  | base :: _ :: _ =>
+    if forallb (fun m => src_eqb (fsrc m) (fsrc base)) members then
+      let mids := ids members in
+      let mu := {| fid := fid base; fdeps := union_deps members mids; fsrc := None; fmerged := mids |} in
+      map (map (redirect mids (fid base))) (set_nth k (merge_in_wave gids mu w) s)
+    else s
+  | _ => s
+  end.
+
+Definition process_wave (k : nat) (s : list (list fetch)) : list (list fetch) :=
+  fold_left (fun s g => merge_group k g s) (groups_of (nth k s [])) s.
+
+(* "for i := range node.ChildNodes" *)
+Fixpoint cmf_from (n k : nat) (s : list (list fetch)) : list (list fetch) :=
+  match n with
+  | 0 => s
+  | S n' => cmf_from n' (S k) (process_wave k s)
+  end.
+Definition create_multi_fetch (t : tree) : tree :=
+  let s := waves_of t in tree_of_waves (cmf_from (length s) 0 s).
+
+(* organizeFetchTree.  [sched] = EnableScheduleFetches, [multi] = the MultiFetch stage is on. *)
 Definition organize (sched multi trigger : bool) (l : list fetch) : outcome :=
   if sched then
     if multi then
+      (* merge-before-schedule: waves, merge, flatten, schedule the merged DAG *)
       match organize_in_waves l with
       | None => OutOfFuel
       | Some w =>
-        let flat := tree_fetches w in
+        let flat := tree_fetches (create_multi_fetch w) in
         match process_fetch_tree trigger flat with
         | inr t => Done t
         | inl SFuel => OutOfFuel
@@ -478,4 +585,8 @@ Definition organize (sched multi trigger : bool) (l : list fetch) : outcome :=
       | inl SFuel => OutOfFuel
       | inl _ => of_option (organize_in_waves l)
       end
-  else of_option (organize_in_waves l).
+  else
+    match organize_in_waves l with
+    | None => OutOfFuel
+    | Some w => Done (if multi then create_multi_fetch w else w)
+    end.
